@@ -8,7 +8,7 @@
      lower_pinned / RPinned = the code as it is at /repo HEAD
      shifted_nonletter A c  = c is (non-letter member of A)+32, the bytes the HEAD table adds by mistake *)
 From Coq Require Import ZArith List Bool.
-From BNP Require Import Base.Prims Model.C06 Corr.C06 Proofs.C06 Proofs.C06_link Gen.C06 Bridge.C06.
+From BNP Require Import Base.Prims Model.C06 Corr.C06 Proofs.C06 Proofs.C06_link Proofs.C06_ext Gen.C06 Bridge.C06.
 Import ListNotations.
 Open Scope Z_scope.
 
@@ -165,7 +165,13 @@ Print Assumptions C06_change_encoding_pinned_refuted.
 
 (* ---------------------------------------------------------------- link: model agrees => property holds *)
 (* For every well-formed case of any size, the observation the (repaired) model predicts satisfies the
-   check's own verdict Corr.C06.spec_ok.  So when model_ok holds for a case (the implementation returned
+   check's own verdict Corr.C06.spec_ok.  These link theorems are about the REPAIRED variants only (lower_fixed,
+   RFixed) — which are the variants in /repo since c99b89e / f03a70b and the ones Corr.C06.model_ok compares with
+   (cur_lower = lower_fixed, cur_rule = RFixed).  For the code before the repairs only the guarded `_partial`
+   theorems above hold, and there is deliberately no link theorem for it.
+   EncodingError.offset: the property text only says "otherwise raises an encoding error", so spec_ok does not
+   constrain the offset; C06_encode_exact / C06_encode_rows_exact prove that the model reports the position of the
+   first foreign character (over the flattened rows) and model_ok compares the implementation's offset with it.  So when model_ok holds for a case (the implementation returned
    what the model predicts) spec_ok holds too. *)
 Theorem C06_link_encode :
   forall ru c raw,
@@ -198,6 +204,23 @@ Theorem C06_link_table :
     spec_ok c = true.
 Proof. exact link_table. Qed.
 Print Assumptions C06_link_table.
+
+Theorem C06_link_numeric :
+  forall L v c mc,
+    k_kind c = 4 -> k_alpha c = [mc] -> 0 <= mc -> Forall (Forall byte) (k_rows c) ->
+    spec_ok (set_out c (model_out_ext L v c)) = true.
+Proof. exact link_numeric. Qed.
+Print Assumptions C06_link_numeric.
+
+(* StringEncoding, repaired variant (verify = true, notes/C06.fix-3.diff); at HEAD (verify = false) the statement is
+   false: C06_string_pinned_refuted *)
+Theorem C06_link_string :
+  forall c n,
+    k_kind c = 5 -> k_alpha c = [Z.of_nat n] ->
+    nodupb (map str_hash (firstn n (k_rows c))) = true ->
+    spec_ok (set_out c (model_out_ext lower_fixed true c)) = true.
+Proof. exact link_string. Qed.
+Print Assumptions C06_link_string.
 
 (* ---------------------------------------------------------------- source tie (translator + bridge) *)
 (* The kernels regenerated from /repo on this run (Gen/C06.v, written by translate/run.py + translate/gen_c06.py) are
@@ -241,6 +264,95 @@ Theorem C06_numeric_roundtrip :
 Proof. exact (fun b mc => conj (Z.sub_add mc b) (Z.add_simpl_r b mc)). Qed.
 Print Assumptions C06_numeric_roundtrip.
 
+(* ---------------------------------------------------------------- numeric offset encodings (encodings/__init__.py) *)
+(* Digit / Quality / Cigar encodings compute in uint8: every byte is accepted; decode gives the byte back for EVERY
+   byte and every min_code; a byte in the valid range [min_code, 255] is encoded as its distance b - min_code, which
+   lies in [0, 255 - min_code]; below min_code the subtraction wraps to b - min_code + 256 (no error is raised). *)
+Theorem C06_numeric_u8_roundtrip :
+  forall b mc, byte b -> num_decode_u8 (num_encode_u8 b mc) mc = b.
+Proof. exact num_roundtrip_u8. Qed.
+Print Assumptions C06_numeric_u8_roundtrip.
+
+Theorem C06_numeric_u8_valid_range :
+  forall b mc, 0 <= mc -> mc <= b < 256 -> num_encode_u8 b mc = b - mc /\ 0 <= b - mc <= 255 - mc.
+Proof. exact num_encode_u8_in_range. Qed.
+Print Assumptions C06_numeric_u8_valid_range.
+
+Theorem C06_numeric_u8_below_range_wraps :
+  forall b mc, 0 <= b < mc -> mc < 256 -> num_encode_u8 b mc = b - mc + 256.
+Proof. exact num_encode_u8_below. Qed.
+Print Assumptions C06_numeric_u8_below_range_wraps.
+
+(* rows of any shape through every route: encode then decode gives the rows back *)
+Theorem C06_numeric_rows_roundtrip :
+  forall route mc rows, Forall (Forall byte) rows -> route <> 9 ->
+    is_str_route route && existsb (fun c => 128 <=? c) (concat rows) = false ->
+    num_rows route mc rows = (Ok [], map (map (fun b => num_encode_u8 b mc)) rows, rows).
+Proof. exact num_rows_roundtrip. Qed.
+Print Assumptions C06_numeric_rows_roundtrip.
+
+(* ---------------------------------------------------------------- StringEncoding (string_encodings.py, util/ascii_hash.py) *)
+(* labels whose hashes are distinct (the constructor asserts it): every list of labels is encoded as the list of
+   their positions and decodes back to itself — both for the code at HEAD (verify = false) and the repaired code *)
+Theorem C06_string_roundtrip :
+  forall v labels (ks : list nat), nodupb (map str_hash labels) = true ->
+    Forall (fun k => (k < length labels)%nat) ks ->
+    str_encode v labels (map (fun k => nth k labels []) ks) = Ok (map Z.of_nat ks)
+    /\ str_decode labels (map Z.of_nat ks) = Some (map (fun k => nth k labels []) ks).
+Proof. exact str_encode_labels. Qed.
+Print Assumptions C06_string_roundtrip.
+
+(* repaired (notes/C06.fix-3.diff, verify = true): whatever is accepted decodes to exactly the queries, and a
+   query that is not a label makes the call raise EncodingError *)
+Theorem C06_string_sound :
+  forall labels qs idx, str_encode true labels qs = Ok idx -> str_decode labels idx = Some qs.
+Proof. exact str_encode_true_sound. Qed.
+Print Assumptions C06_string_sound.
+
+Theorem C06_string_rejects_unknown :
+  forall labels qs q, nodupb (map str_hash labels) = true -> In q qs -> ~ In q labels ->
+    str_encode true labels qs = EncErr 0.
+Proof. exact str_encode_true_reject. Qed.
+Print Assumptions C06_string_rejects_unknown.
+
+(* the code at HEAD looks labels up by hash only: an unknown query is rejected only if its hash is not a label's *)
+Theorem C06_string_pinned_partial :
+  forall labels qs q, nodupb (map str_hash labels) = true -> In q qs ->
+    ~ In (str_hash q) (map str_hash labels) -> str_encode false labels qs = EncErr 0.
+Proof. exact str_encode_pinned_partial. Qed.
+Print Assumptions C06_string_pinned_partial.
+
+(* ... and "vjPac9" has the hash of "chr1": accepted as code 0, decodes to "chr1" *)
+Theorem C06_string_pinned_refuted :
+  exists labels q idx, nodupb (map str_hash labels) = true /\ ~ In q labels
+    /\ str_encode false labels [q] = Ok idx /\ str_decode labels idx <> Some [q].
+Proof. exact str_encode_pinned_refuted. Qed.
+Print Assumptions C06_string_pinned_refuted.
+
+(* ---------------------------------------------------------------- KmerEncoding (kmer_encodings.py) *)
+(* base-n digits: the number of a k-mer determines its letters *)
+Theorem C06_kmer_digits :
+  forall n codes, 0 < n -> Forall (fun c => 0 <= c < n) codes ->
+    kmer_digits n (length codes) (kmer_hash n codes) = codes.
+Proof. exact kmer_digits_hash. Qed.
+Print Assumptions C06_kmer_digits.
+
+(* accepted exactly when the text has k letters of the alphabet (case-insensitively); to_string gives the
+   upper-cased text back *)
+Theorem C06_kmer_exact :
+  forall A k s, alphabet_ok A -> Forall byte s ->
+    (len s = k -> text_ok A s = true ->
+       exists h, kmer_encode lower_fixed A k s = Ok [h] /\ kmer_to_string A k h = Some (map upper s))
+    /\ (len s <> k \/ text_ok A s = false -> forall hs, kmer_encode lower_fixed A k s <> Ok hs).
+Proof. exact kmer_encode_exact. Qed.
+Print Assumptions C06_kmer_exact.
+
+Theorem C06_kmer_injective :
+  forall A k s1 s2 h, alphabet_ok A -> Forall byte s1 -> Forall byte s2 ->
+    kmer_encode lower_fixed A k s1 = Ok [h] -> kmer_encode lower_fixed A k s2 = Ok [h] -> map upper s1 = map upper s2.
+Proof. exact kmer_injective. Qed.
+Print Assumptions C06_kmer_injective.
+
 (* ---------------------------------------------------------------- non-vacuity *)
 (* "acgTn" over ACGTN meets the hypotheses and the executable model returns codes decoding to "ACGTN";
    a list with an empty row and a foreign 'x' in the third row reports flat offset 3 *)
@@ -267,3 +379,12 @@ Proof. vm_compute. repeat split; reflexivity. Qed.
 Example C06_wrongly_accepted_at_head :
   wrongly_accepted = [ []; []; []; []; [80;81;82;83;84;85;86;87;88;89]; []; [74]; [93]; [93]; [75;77;78] ].
 Proof. vm_compute. reflexivity. Qed.
+
+(* quality '!' 'I' '~' and the out-of-range ' ' (wraps to 255); "chr2" among four labels; "acG" as a 3-mer *)
+Example C06_nonvacuous_ext :
+  num_rows 2 33 [[33;73;126]; []; [32]] = (Ok [], [[0;40;93]; []; [255]], [[33;73;126]; []; [32]])
+  /\ str_encode false chr_labels [[99;104;114;50]; [65]] = Ok [1;2]
+  /\ str_encode true chr_labels [[118;106;80;97;99;57]] = EncErr 0
+  /\ kmer_encode lower_fixed [65;67;71;84] 3 [97;99;71] = Ok [36]
+  /\ kmer_to_string [65;67;71;84] 3 36 = Some [65;67;71].
+Proof. vm_compute. repeat split; reflexivity. Qed.
